@@ -382,5 +382,5 @@ class KmatrixSplitLSParticle(Particle):
         # K_inv = tf.linalg.inv(E - tf.stack(K, axis=-2))
         # print("K_inv", K_inv)
         # print(P)
-        ret = tf.reduce_sum(K_inv * tf.stack(P, axis=-1)[:, None], axis=1)
+        ret = tf.reduce_sum(K_inv * tf.stack(P, axis=-1)[:, None], axis=-1)
         return ret
